@@ -365,6 +365,9 @@ func (st *State) storePtr(p *Ptr, v Val, pos token.Pos) {
 			a := st.arr(name, arrSort(c.Sort))
 			st.setArrRaw(name, arrSort(c.Sort), store(a, p.Root, v.C[i]), false)
 			st.noteKnown(name, p.Root, v.C[i])
+			if !st.allocConst[p.Root] {
+				st.written[name] = true
+			}
 		}
 	case PElem:
 		for i, c := range comps {
@@ -372,6 +375,9 @@ func (st *State) storePtr(p *Ptr, v Val, pos token.Pos) {
 			e.noteRef(name, c)
 			a := st.arr(name, arr2Sort(c.Sort))
 			st.setArr(name, arr2Sort(c.Sort), store(a, p.Root, store(sel(a, p.Root), p.Idx, v.C[i])))
+			if !st.allocConst[p.Root] {
+				st.written[name] = true
+			}
 		}
 	case PArr:
 		e.unsupportedf("store of whole array")
